@@ -723,3 +723,51 @@ Example reset_example :
   | None => False
   end.
 Proof. vm_compute. repeat split; reflexivity. Qed.
+
+(* ---------- schedules with resets; the events popped ---------- *)
+Lemma run_sched_xreach ops : forall s s', xreach s -> run_sched s ops = Some s' -> xreach s'.
+Proof.
+  induction ops as [|op t IH]; intros s s' R H; cbn in H.
+  - inversion H; subst. exact R.
+  - destruct (net_step s op) as [[o s1]|] eqn:E; [|discriminate]. eapply IH; [eapply xreach_step; eassumption|exact H].
+Qed.
+
+Lemma nreach_xreach s : nreach s -> xreach s.
+Proof. induction 1; [exact xreach_init|eapply xreach_step; eassumption]. Qed.
+
+Fixpoint sched_popped (s : net) (ops : list nop) : list rout :=
+  match ops with
+  | [] => []
+  | op :: t => match net_step s op with
+               | Some (o, s') => (match o with OEvent e => [e] | _ => [] end) ++ sched_popped s' t
+               | None => []
+               end
+  end.
+
+(* next_event() returns exactly the queued events, in order *)
+Lemma queue_fifo ops : forall s s', run_sched s ops = Some s' ->
+  sched_popped s ops ++ n_queue s' = n_queue s ++ sched_events s ops.
+Proof.
+  induction ops as [|op t IH]; intros s s' H; cbn [run_sched sched_events sched_popped] in *.
+  - inversion H; subst. rewrite app_nil_r. reflexivity.
+  - destruct (net_step s op) as [[o s1]|] eqn:E; [|discriminate]. specialize (IH s1 s' H).
+    destruct op; try (destruct (step_queue s _ o s1 E ltac:(discriminate)) as (q & Q1 & _);
+      unfold queued; rewrite Q1, skipn_app_exact; rewrite Q1 in IH;
+      assert (Ho : match o with OEvent e => [e] | _ => [] end = @nil rout)
+        by (cbn [net_step] in E; repeat match type of E with context [match ?x with _ => _ end] => destruct x end; inversion E; reflexivity);
+      rewrite Ho; cbn [app]; rewrite IH, app_assoc; reflexivity).
+    destruct (pop_shape s o s1 E) as (_ & _ & _ & e & Q1 & ->). unfold queued. cbn [app]. rewrite Q1, IH. reflexivity.
+Qed.
+
+(* from the initial state: what has been reported is exactly the event stream *)
+Lemma events_from_init ops s' : run_sched net_init ops = Some s' ->
+  xreach s' /\
+  n_dbytes s' = bytes_all (sched_events net_init ops) /\ n_ends s' = ends_of (sched_events net_init ops) /\
+  term_last (sched_events net_init ops) /\
+  Zlen (filter is_term (sched_events net_init ops)) <= 1 /\
+  sched_popped net_init ops ++ n_queue s' = sched_events net_init ops.
+Proof.
+  intros H. destruct (events_shape ops net_init s' H) as (E1 & E2 & _ & E4). cbn [n_dbytes n_ends net_init app] in E1, E2.
+  split; [exact (run_sched_xreach ops _ _ xreach_init H)|]. split; [exact E1|]. split; [lia|]. split; [exact E4|].
+  split; [exact (proj2 (term_last_count _ E4))|]. exact (queue_fifo ops _ _ H).
+Qed.
